@@ -148,6 +148,17 @@ func atoi(s string) int64 {
 	return v
 }
 
+// sgn: the Int64 fields (timestamps, durations) of odd rows are NEGATIVE (a timestamp before 1970); decodeCol takes the absolute value
+func sgns(v []int64) []int64 {
+	o := make([]int64, len(v))
+	for i, x := range v {
+		o[i] = x
+		if x%2 != 0 {
+			o[i] = -x
+		}
+	}
+	return o
+}
 func u8s(v []int64) []uint8 {
 	o := make([]uint8, len(v))
 	for i, x := range v {
@@ -215,21 +226,21 @@ func buildReq(kind string, cols []Col, sz int64) (helpers.SizeGetter, error) {
 	}
 	switch kind {
 	case "samples":
-		return &model.TimeSamplesData{MType: u8s(c[0]), MFingerprint: u64s(c[1]), MTimestampNS: c[2],
+		return &model.TimeSamplesData{MType: u8s(c[0]), MFingerprint: u64s(c[1]), MTimestampNS: sgns(c[2]),
 			MMessage: strs(c[3]), MValue: f64s(c[4]), Size: int(sz)}, nil
 	case "metrics":
-		return &model.TimeSamplesData{MType: u8s(c[0]), MFingerprint: u64s(c[1]), MTimestampNS: c[2],
+		return &model.TimeSamplesData{MType: u8s(c[0]), MFingerprint: u64s(c[1]), MTimestampNS: sgns(c[2]),
 			MValue: f64s(c[3]), Size: int(sz)}, nil
 	case "series":
 		return &model.TimeSeriesData{MType: u8s(c[0]), MDate: days(c[1]), MFingerprint: u64s(c[2]),
 			MLabels: strs(c[3]), Size: int(sz)}, nil
 	case "spans":
 		return &model.TempoSamples{MTraceId: fixeds(c[0], 16), MSpanId: fixeds(c[1], 8), MParentId: strs(c[2]),
-			MName: strs(c[3]), MTimestampNs: c[4], MDurationNs: c[5], MServiceName: strs(c[6]),
+			MName: strs(c[3]), MTimestampNs: sgns(c[4]), MDurationNs: sgns(c[5]), MServiceName: strs(c[6]),
 			MPayloadType: i8s(c[7]), MPayload: bytess(c[8]), Size: int(sz)}, nil
 	case "tags":
 		return &model.TempoTag{MDate: days(c[0]), MKey: strs(c[1]), MVal: strs(c[2]), MTraceId: fixeds(c[3], 16),
-			MSpanId: fixeds(c[4], 8), MTimestampNs: c[5], MDurationNs: c[6], Size: int(sz)}, nil
+			MSpanId: fixeds(c[4], 8), MTimestampNs: sgns(c[5]), MDurationNs: sgns(c[6]), Size: int(sz)}, nil
 	case "profile":
 		for j := range profArr {
 			if len(c[j]) != 1 {
@@ -267,6 +278,9 @@ func decodeCol(d proto.ColInput) ([]int64, error) {
 		}
 	case proto.ColInt64:
 		for _, x := range c {
+			if x < 0 {
+				x = -x
+			}
 			o = append(o, x)
 		}
 	case proto.ColFloat64:
